@@ -765,7 +765,11 @@ func (c *FnCtx) uniqueness() {
 		return
 	}
 	var goals []string
-	same := func(a, b Term, t types.Type) string {
+	// observable equality: slices agree on [0, len), maps on their keys, structs field by field (recursively);
+	// what lies behind a slice's length or under an absent key is not observable
+	nvar := 0
+	var same func(a, b Term, t types.Type) string
+	same = func(a, b Term, t types.Type) string {
 		si := c.eng.Sorts.Info(a.Sort)
 		if si != nil {
 			switch si.Kind {
@@ -774,11 +778,27 @@ func (c *FnCtx) uniqueness() {
 					return eq(eq(a.S, "I.error.nil"), eq(b.S, "I.error.nil")) // only nil-ness of errors is observable
 				}
 			case KMap:
-				return fmt.Sprintf("(forall ((k!u %s)) (and (= (select (%s.has %s) k!u) (select (%s.has %s) k!u)) (=> (select (%s.has %s) k!u) (= (select (%s.val %s) k!u) (select (%s.val %s) k!u)))))",
-					si.Key, a.Sort, a.S, a.Sort, b.S, a.Sort, a.S, a.Sort, a.S, a.Sort, b.S)
+				nvar++
+				k := fmt.Sprintf("k!u%d", nvar)
+				va := Term{fmt.Sprintf("(select (%s.val %s) %s)", a.Sort, a.S, k), si.Elem}
+				vb := Term{fmt.Sprintf("(select (%s.val %s) %s)", a.Sort, b.S, k), si.Elem}
+				return fmt.Sprintf("(forall ((%s %s)) (and (= (select (%s.has %s) %s) (select (%s.has %s) %s)) (=> (select (%s.has %s) %s) %s)))",
+					k, si.Key, a.Sort, a.S, k, a.Sort, b.S, k, a.Sort, a.S, k, same(va, vb, nil))
 			case KSlice:
-				return fmt.Sprintf("(and (= (%s.len %s) (%s.len %s)) (forall ((i!u Int)) (=> (and (<= 0 i!u) (< i!u (%s.len %s))) (= (select (%s.arr %s) i!u) (select (%s.arr %s) i!u)))))",
-					a.Sort, a.S, a.Sort, b.S, a.Sort, a.S, a.Sort, a.S, a.Sort, b.S)
+				nvar++
+				i := fmt.Sprintf("i!u%d", nvar)
+				ea := Term{fmt.Sprintf("(select (%s.arr %s) %s)", a.Sort, a.S, i), si.Elem}
+				eb := Term{fmt.Sprintf("(select (%s.arr %s) %s)", a.Sort, b.S, i), si.Elem}
+				return fmt.Sprintf("(and (= (%s.len %s) (%s.len %s)) (forall ((%s Int)) (=> (and (<= 0 %s) (< %s (%s.len %s))) %s)))",
+					a.Sort, a.S, a.Sort, b.S, i, i, i, a.Sort, a.S, same(ea, eb, nil))
+			case KStruct:
+				var fs []string
+				for _, f := range si.Fields {
+					fs = append(fs, same(Term{app(f.Sel, a.S), f.Sort}, Term{app(f.Sel, b.S), f.Sort}, nil))
+				}
+				if len(fs) > 0 {
+					return and(fs...)
+				}
 			}
 		}
 		return eq(a.S, b.S)
